@@ -431,7 +431,7 @@ struct Engine {
   }
   E *make_hold(Val v) {
     MonScope m;
-    hold = new E(v.key, v.pay);
+    hold = new E(Mk<E>::make(v));
     return hold;
   }
 
@@ -440,11 +440,11 @@ struct Engine {
     // initializer lists need literal sizes
     switch (vals.size()) {
       case 0: { std::initializer_list<E> il = {}; f(il); break; }
-      case 1: { g_monitor_depth++; std::initializer_list<E> il = {E(vals[0].key, vals[0].pay)}; g_monitor_depth--; f(il); g_monitor_depth++; }
+      case 1: { g_monitor_depth++; std::initializer_list<E> il = {Mk<E>::make(vals[0])}; g_monitor_depth--; f(il); g_monitor_depth++; }
         g_monitor_depth--; break;
-      case 2: { g_monitor_depth++; std::initializer_list<E> il = {E(vals[0].key, vals[0].pay), E(vals[1].key, vals[1].pay)}; g_monitor_depth--; f(il); g_monitor_depth++; }
+      case 2: { g_monitor_depth++; std::initializer_list<E> il = {Mk<E>::make(vals[0]), Mk<E>::make(vals[1])}; g_monitor_depth--; f(il); g_monitor_depth++; }
         g_monitor_depth--; break;
-      default: { g_monitor_depth++; std::initializer_list<E> il = {E(vals[0].key, vals[0].pay), E(vals[1].key, vals[1].pay), E(vals[2].key, vals[2].pay)}; g_monitor_depth--; f(il); g_monitor_depth++; }
+      default: { g_monitor_depth++; std::initializer_list<E> il = {Mk<E>::make(vals[0]), Mk<E>::make(vals[1]), Mk<E>::make(vals[2])}; g_monitor_depth--; f(il); g_monitor_depth++; }
         g_monitor_depth--; break;
     }
   }
@@ -539,7 +539,7 @@ struct Engine {
         set_op("emplace_back", sta, cntcls(a, 1), fmt("P%d %d.%u", ai, x.key, x.pay));
         oi.point = sz;
         const E *r = nullptr;
-        window([&] { r = &v.emplace_back(x.key, x.pay); });
+        window([&] { r = &Emp<Vec>::back(v, x); });
         mo.push_back(x);
         if (!threw) {
           MonScope m;
@@ -553,7 +553,7 @@ struct Engine {
         uintmax_t pos = pick_pos(a);
         set_op("emplace", sta, poscls(pos, sz) + "," + cntcls(a, 1), fmt("P%d pos=%ju %d.%u", ai, pos, x.key, x.pay));
         oi.point = pos;
-        window([&] { { auto it_ = v.emplace(v.begin() + pos, x.key, x.pay); ret_idx = it_ - v.begin(); } });
+        window([&] { { auto it_ = Emp<Vec>::at(v, v.begin() + pos, x); ret_idx = it_ - v.begin(); } });
         mo.insert(mo.begin() + pos, x);
         exp_idx = pos;
         break;
@@ -942,7 +942,7 @@ struct Engine {
         if (!room) return false;
         set_op("alias:emplace(pos,&v[i])", sta, rel + "," + cntcls(a, 1), fmt("P%d pos=%ju src=%ju", ai, pos, src));
         oi.point = std::min(pos, src);
-        window([&] { { auto it_ = v.emplace(v.begin() + pos, static_cast<const E *>(&v[static_cast<SizeT>(src)])); ret_idx = it_ - v.begin(); } });
+        window([&] { ret_idx = emplace_from_ptr(v, pos, src); });
         mo.insert(mo.begin() + pos, x);
         exp_idx = pos;
         break;
@@ -980,6 +980,18 @@ struct Engine {
     }
     if (!threw && ret_idx != exp_idx) violation("C01,C10", "model.returned_position", fmt("returned iterator at index %ld, expected %ld", ret_idx, exp_idx));
     return true;
+  }
+
+  // emplace(pos, pointer-to-own-element): the class element types have a constructor from a pointer; raw arithmetic types are emplaced from the value
+  template <class V_ = Vec>
+  static typename std::enable_if<!std::is_arithmetic<typename V_::value_type>::value, long>::type emplace_from_ptr(V_ &v, uintmax_t pos, uintmax_t src) {
+    auto it_ = v.emplace(v.begin() + pos, static_cast<const E *>(&v[static_cast<SizeT>(src)]));
+    return it_ - v.begin();
+  }
+  template <class V_ = Vec>
+  static typename std::enable_if<std::is_arithmetic<typename V_::value_type>::value, long>::type emplace_from_ptr(V_ &v, uintmax_t pos, uintmax_t src) {
+    auto it_ = v.emplace(v.begin() + pos, v[static_cast<SizeT>(src)]);
+    return it_ - v.begin();
   }
 
   void op_erase20(int ai, OpInfo &oi) {
@@ -1105,7 +1117,7 @@ struct Engine {
         Val x = nv();
         set_op("partner:emplace_back", sta, "-", fmt("%s %d.%u", pname, x.key, x.pay));
         oi.point = sz;
-        window([&] { v.emplace_back(x.key, x.pay); });
+        window([&] { Emp<V>::back(v, x); });
         s.model.push_back(x);
         break;
       }
